@@ -150,6 +150,35 @@ theorem python_accepts_only_what_the_engine_knows :
     (∀ m ∈ pyModes, m ∈ cppModesGrid ∧ m ∈ cppModesGraph) ∧
     (∀ b ∈ pyBoundary, b ∈ cppBoundary.map (·.1)) := by decide +kernel
 
+/-- the engine compares keywords exactly, and `LibRDEngine.setup` turns both native error codes into exceptions -/
+theorem engine_keywords_compared_exactly :
+    compareStrBody = "return(std::string(str1)==std::string(str2));" ∧ engineErrorCodes = ["res==1", "res==2"] := by
+  decide +kernel
+
+/-- an engine option is refused by `setup` iff it is not one of the three documented ones -/
+theorem engine_option_rejects_iff (graph : Bool) (option : String) :
+    (engineSetupOption graph option).isError = true ↔ option ∉ ["gillespie", "tauleap", "euler"] := by
+  have h1 : cppOptionsGrid.map (·.1) = ["gillespie", "tauleap", "euler"] := by decide +kernel
+  have h2 : cppOptionsGraph.map (·.1) = ["gillespie", "tauleap", "euler"] := by decide +kernel
+  have hc := engine_keywords_compared_exactly.1
+  unfold engineSetupOption
+  simp only [hc, bne_self_eq_false, Bool.and_false, Bool.false_eq_true, ↓reduceIte, BEq.rfl, Bool.true_and]
+  cases graph
+  · simp only [Bool.false_eq_true, ↓reduceIte, h1]
+    by_cases h : ["gillespie", "tauleap", "euler"].contains option = true
+    · simp [h, Res.isError, List.contains_iff_mem.mp h]
+    · have hn : option ∉ ["gillespie", "tauleap", "euler"] := fun hm => h (List.contains_iff_mem.mpr hm)
+      have hn' := hn
+      simp only [List.mem_cons, List.not_mem_nil, or_false, not_or] at hn'
+      simp [hn', Res.isError]
+  · simp only [↓reduceIte, h2]
+    by_cases h : ["gillespie", "tauleap", "euler"].contains option = true
+    · simp [h, Res.isError, List.contains_iff_mem.mp h]
+    · have hn : option ∉ ["gillespie", "tauleap", "euler"] := fun hm => h (List.contains_iff_mem.mpr hm)
+      have hn' := hn
+      simp only [List.mem_cons, List.not_mem_nil, or_false, not_or] at hn'
+      simp [hn', Res.isError]
+
 theorem mem_of_contains_false {l : List String} {p : String} (h : ¬ l.contains p = true) : p ∉ l :=
   fun hm => h (List.contains_iff_mem.mpr hm)
 
